@@ -47,7 +47,7 @@ PairBad(i, ev) ==
         \cup (IF ValueOk(N, ev.ne) THEN {} ELSE {"ne_value"})
         \cup (IF ComplementOk(ev.eq, ev.ne) THEN {} ELSE {"complementary"})
         \cup (IF SymmetricOk(ev.eq, ev.req) /\ SymmetricOk(ev.ne, ev.rne) THEN {} ELSE {"symmetric"})
-        \cup (IF HashOk(a, b, ev.hi, ev.hj, ev.heq) THEN {} ELSE {"hash"})
+        \cup (IF HashOk(a, b, ev.hi, ev.hj, ev.heq, ev.eq) THEN {} ELSE {"hash"})
         \cup (IF MustBeIdentical(a, b) => ev.same THEN {} ELSE {"singleton_identity"})
 
 JudgePair(i, ev) ==
